@@ -178,6 +178,7 @@ def data_field(v: SPrim, name: str) -> SV:
     for fname, fty in S.DATA_FIELDS.get(v.ty, []):
         if fname == name:
             acc = getattr(S.DATA[v.ty], "f_" + name)
+            if v.ty == "RhsV" and name == "ext": acc = S.RuleV.f_ext
             return S.wrap(S.parse_type(fty) if isinstance(fty, str) else fty, acc(v.t))
     raise KeyError(name)
 
